@@ -89,7 +89,18 @@ fn c20_main(tier: Tier) -> i32 {
         b["detail"] = json!(detail);
         b["schedules_showing_it"] = json!(n);
         let path = report::write_replay("C20", tier, sig, b);
-        viol_json.push(json!({"sig": sig, "replay": path, "schedules": n}));
+        // determinism: the recorded schedule must show the same violation when replayed in a fresh process
+        let reproduced = match std::env::current_exe().ok().and_then(|exe| std::process::Command::new(exe).arg("replay").arg(&path).output().ok()) {
+            Some(o) => String::from_utf8_lossy(&o.stdout).contains(&format!("violation: {}", sig)),
+            None => false,
+        };
+        let crash_like = sig.starts_with("killed-by-signal") || sig == "hang" || sig.starts_with("exit-") || sig == "deadlock" || sig.starts_with("panic@");
+        viol_json.push(json!({"sig": sig, "replay": path, "schedules": n, "reproduced_on_replay": reproduced}));
+        if !reproduced && !crash_like {
+            println!("MACHINERY-ERROR property=C20 schedule recorded for '{}' does not reproduce it on replay (nondeterminism); replay={}", sig, path);
+            machinery = Some(format!("violation '{}' not reproduced on replay", sig));
+            continue;
+        }
         if let Some(f) = report::match_finding(&findings, "C20", sig) {
             println!("KNOWN-FINDING: property=C20 {} [{} schedule(s); sig={}; replay={}]", f.what, n, sig, path);
             known += 1;
